@@ -199,6 +199,16 @@ impl Engine {
         self.m.former_admins.push(old.clone());
         self.m.admin = sender.clone();
         self.m.nominee = None;
+        // acceptance consumed the nomination: nothing is pending any more and a second acceptance fails
+        // (checked before the admin-only probes, which themselves clear a pending nomination)
+        let po = self.q(json!({"state": {}})).map(|v| v["pending_owner"].as_str().unwrap_or("").to_string());
+        if po.as_deref() != Some("") {
+            self.v("C12", "acceptance_consumes_nomination", format!("pending owner is {:?} after the acceptance", po));
+        }
+        let r = self.run_admin(&sender, &json!({"accept_ownership": {}}), Origin::Other);
+        if r.ok {
+            self.v("C12", "acceptance_consumes_nomination", "second AcceptOwnership succeeded".into());
+        }
         // admin-only probe: the former admin has lost its rights, the new one has them
         if old != sender {
             let r = self.run_admin(&old, &json!({"revoke_ownership_transfer": {}}), Origin::Other);
@@ -209,11 +219,6 @@ impl Engine {
         let r = self.run_admin(&sender, &json!({"revoke_ownership_transfer": {}}), Origin::Other);
         if !r.ok && !r.env_fault {
             self.v("C12", "new_admin_has_rights", format!("new admin {} is refused an admin-only message: {}", sender, r.err));
-        }
-        // acceptance consumed the nomination: a second acceptance fails
-        let r = self.run_admin(&sender, &json!({"accept_ownership": {}}), Origin::Other);
-        if r.ok {
-            self.v("C12", "acceptance_consumes_nomination", "second AcceptOwnership succeeded".into());
         }
         self.last_tx = Some(res);
     }
